@@ -23,7 +23,7 @@ ASSUMPTIONS = [
 def bounds(tier: str) -> Dict[str, Any]:
     if tier == "quick":
         return dict(T=4, K=3, K2=4, K4=2, file_K=2, tie_max_dev=1, chunk=64)
-    return dict(T=5, K=4, K2=5, K4=3, file_K=3, tie_max_dev=1, chunk=64)
+    return dict(T=5, K=3, K2=4, K4=3, file_K=3, tie_max_dev=1, chunk=64)
 
 
 def worlds(tier: str, stats: Dict[str, Any]) -> Iterator[Any]:
